@@ -71,7 +71,9 @@ class Counting:
     def __init__(self, f, ret=None):
         self.f, self.n, self.ret = f, 0, ret
 
-    def __call__(self, n, c, t):
+    def __call__(self, nbhd_arg, cell_arg, step_arg):
+
+        n, c, t = nbhd_arg, cell_arg, step_arg   # not named (n, c, t): the library must call rules positionally
         self.n += 1
         v = self.f(n, c, t)
         return getattr(np, self.ret)(v) if self.ret else v
@@ -321,7 +323,7 @@ def _timesteps(ts):
         return PredScript(list(ts['script']))
     k = ts['ufplt']
     ufp = cpl.until_fixed_point()
-    return lambda ca, t: t < k and ufp(ca, t)
+    return lambda history_arg, count_arg: count_arg < k and ufp(history_arg, count_arg)
 
 
 def _grids(out):
